@@ -335,20 +335,21 @@ public:
             }
             if (!inLibAfter) {
                 if (senderDistrusted) { stat("held_decision_discarded_sender_distrusted_again"); continue; }
+                // the same decision was just made for this very key by someone authorised: this operation itself names the key with that
+                // verdict, or another held decision with the same content was consumed because ITS sender key is authenticated now
+                bool legit = false;
+                if (op.kind == Op::Man && op.o == r.owner) for (int k : (r.trust ? op.a : op.d)) if (k == r.key) legit = true;
+                if (op.kind == Op::Msg && (op.acc == own || op.acc == r.owner)) for (auto &ko : op.owners) if (ko.jid == r.owner) for (int k : (r.trust ? ko.tr : ko.di)) if (k == r.key) legit = true;
+                for (auto &q : P) if (!(q.sacc == r.sacc && q.sk == r.sk) && q.owner == r.owner && q.key == r.key && q.trust == r.trust && (a.level(q.sacc, q.sk) == L_AUTH || touchedIds.count(q.sk)) &&
+                                     b.pp.count(PEntry(q.sk, q.owner, q.key, q.trust)) && !a.pp.count(PEntry(q.sk, q.owner, q.key, q.trust))) legit = true;
                 if (strict) {
-                    // without shared key IDs the only legitimate reason is that the same decision was just made for this very key by someone authorised
-                    // ... i.e. this operation itself names the key with that verdict, or another held decision with the same content fired
-                    // because ITS sender key is authenticated now
-                    bool legit = false;
-                    if (op.kind == Op::Man && op.o == r.owner) for (int k : (r.trust ? op.a : op.d)) if (k == r.key) legit = true;
-                    if (op.kind == Op::Msg && (op.acc == own || op.acc == r.owner)) for (auto &ko : op.owners) if (ko.jid == r.owner) for (int k : (r.trust ? ko.tr : ko.di)) if (k == r.key) legit = true;
-                    for (auto &q : P) if (!(q.sacc == r.sacc && q.sk == r.sk) && q.owner == r.owner && q.key == r.key && q.trust == r.trust && (a.level(q.sacc, q.sk) == L_AUTH || touchedIds.count(q.sk)) &&
-                                         b.pp.count(PEntry(q.sk, q.owner, q.key, q.trust)) && !a.pp.count(PEntry(q.sk, q.owner, q.key, q.trust))) legit = true;
+                    // without shared key IDs that is the only legitimate reason
                     if (!sameKeyDecided) fail("C18:held-entry-vanished", recText(r));
                     else if (!legit) fail("C18:fired-without-authenticated-sender", recText(r));
                     else { stat("held_decision_superseded"); oraclePass()++; }
                     continue;
                 }
+                if (legit && sameKeyDecided) { stat("held_decision_superseded"); oraclePass()++; continue; }
                 bool otherAuth = false, otherDis = false;
                 for (int acc2 = 0; acc2 < NACC; acc2++) if (acc2 != r.sacc) { if (a.level(acc2, r.sk) == L_AUTH) otherAuth = true; if (a.level(acc2, r.sk) == L_MANDIS) otherDis = true; }
                 const bool tookEffect = got == expected && b.level(r.owner, r.key) != expected;
@@ -502,6 +503,10 @@ int main(int argc, char **argv) {
     t.runText(1, 1, { "man 0 1 1 -", "msg 0 1 0 1 0 2:2:-", "msg 0 1 1 1 0 2:3:-" });            // another own account / resource
     t.runText(0, 0, { "msg 0 1 1 1 0 1:2:2", "man 0 1 1 -" });                                  // same key trusted and distrusted in one message
     t.runText(0, 0, { "msg 0 1 1 1 0 1:2:-", "msg 0 1 1 3 0 1:2:-", "man 0 1 1 -", "man 0 1 - 2", "man 0 1 3 -" });  // superseded held decision
+
+    t.runText(0, 0, { "msg 0 1 1 1 0 1:2:-", "msg 0 1 1 1 0 1:2,3:-" });                        // second message: one key already held, one new
+    t.runText(0, 0, { "man 0 1 - 1", "msg 0 1 1 1 0 1:2:-", "man 0 1 1 -" });                    // a distrusted sender is "not authenticated": held, fires if authenticated later
+    t.runText(0, 0, { "msg 0 1 1 1 0 1:-:2", "msg 0 1 1 2 0 1:3:-", "man 0 1 1 -" });            // a FIRED distrust of B:k2 discards what B:k2 had sent
 
     // ---- exhaustive over a compact alphabet, under both policies
     std::vector<std::string> alphaText = {
